@@ -20,6 +20,11 @@ Lemma shift_lits :
   match_hshift = 32 /\ zip_hshift = 32 /\ hash_hshift = 32 /\ any_div = 2 /\ hint_mul = 8 /\ hint_add = 1.
 Proof. repeat split; reflexivity. Qed.
 
+(* loop starts, the empty-filter shortcut and the base of the two `1 << 32` bounds *)
+Lemma start_lits :
+  build_nbase = 1 /\ build_empty = 0 /\ fromn_nbase = 1 /\ match_i0 = 0 /\ zip_i0 = 0.
+Proof. repeat split; reflexivity. Qed.
+
 (* ---------- fastReduction ---------- *)
 Lemma w64_small x : x < two64 -> w64 x = x.
 Proof. intros. apply N.mod_small. assumption. Qed.
